@@ -150,6 +150,9 @@ def scenario(ns, e, rng, chain_len, extra=0):
         ovs.append(o)
     if len(ovs) < chain_len + 1:
         return None
+    # the chain's last overhang (the vector's upstream one) is no module's start: it may be the reverse complement of one
+    if rng.random() < 0.3:
+        ovs[chain_len] = gen.rc(ovs[rng.randrange(chain_len)])
     mods, frags = [], []
     for i in range(chain_len):
         t = ba.clean(rng, rng.randint(2, 9), e)
